@@ -291,7 +291,7 @@ def _execute(program, stats, hist):
             h.to(dtype0)
             cast_module_outputs(h.inputs, dtype0)
 
-            class _Fault(Exception):
+            class _Fault(RuntimeError):  # what torch itself raises on a shape or dtype error
                 pass
             calls = [0]
 
